@@ -379,6 +379,29 @@ func diffClasses(a, b snapshot) []string {
 	return out
 }
 
+// primaryClass reduces a set of difference classes to the most significant one (stable violation keys).
+func primaryClass(cls []string) string {
+	has := func(x string) bool {
+		for _, c := range cls {
+			if c == x {
+				return true
+			}
+		}
+		return false
+	}
+	switch {
+	case has("cu-accounting"):
+		return "cu-accounting"
+	case has("session-removed") || has("project-removed") || has("epoch-bookkeeping"):
+		return "other:" + strings.Join(cls, "+")
+	case has("project-registered") || has("consumer-registered"):
+		return "consumer-registered"
+	case has("empty-session-added"):
+		return "empty-session-added"
+	}
+	return "other:" + strings.Join(cls, "+")
+}
+
 // ---------------------------------------------------------------- corruptions
 
 type when int
@@ -480,7 +503,7 @@ func catalogue(u *universe) []corruption {
 		S("ContentHash", "nil", func(w *world, s *session) { s.ContentHash = nil }),
 		S("ContentHash", "hash-of-other-data", func(w *world, s *session) {
 			d := baseData()
-			d.Data = []byte(`{"jsonrpc":"2.0","method":"eth_chainId","params":[],"id":1}`)
+			d.Data = []byte(`{"jsonrpc":"2.0","method":"eth_gasPrice","params":[],"id":99}`) // data no corruption produces
 			s.ContentHash = sigs.HashMsg(d.GetContentHashData())
 		}),
 		onlyAfter(S("Sig", "flip-middle-bit", func(w *world, s *session) { s.Sig[20] ^= 4 })),
@@ -752,6 +775,7 @@ func classifyErr(err error) string {
 		{"request had the wrong lava chain ID", "wrong-lava-chain"},
 		{"content hash mismatch", "content-hash-mismatch"},
 		{"failed to extract signer", "signature-unrecoverable"},
+		{"RecoverCompact", "signature-unrecoverable"},
 		{"Failed to VerifyPairing", "pairing-query-error"},
 		{"not valid with this provider", "not-paired"},
 		{"GetMaxCuForUser failed", "maxcu-query-error"},
@@ -764,10 +788,10 @@ func classifyErr(err error) string {
 			return p.cls
 		}
 	}
-	if len(m) > 60 {
-		m = m[:60]
+	if len(m) > 48 {
+		m = m[:48]
 	}
-	return "parse-or-other: " + m
+	return "parse-error: " + m
 }
 
 func runCase(u *universe, cfg worldCfg, cors []applied) outcome {
@@ -860,7 +884,12 @@ func runCase(u *universe, cfg worldCfg, cors []applied) outcome {
 	b0.Locked, b1.Locked = nil, nil
 	if b0.json() != b1.json() {
 		o.stateDiff = diffClasses(b0, b1)
-		o.viols = append(o.viols, ev.Violation{Key: "rejected-state-changed/" + strings.Join(o.stateDiff, "+"),
+		key := "rejected-state-changed/"
+		if o.nFalse > 0 {
+			// worse: a request that violates a stated condition (not authentic / not for us) left a trace
+			key = "rejected-invalid-request-state-changed/"
+		}
+		o.viols = append(o.viols, ev.Violation{Key: key + primaryClass(o.stateDiff),
 			What: fmt.Sprintf("request rejected (%s) but the session manager state changed [%s] (world %s, corruptions %v): before %s after %s",
 				o.reason, strings.Join(o.stateDiff, "+"), cfg, b.changedFields, b0.json(), b1.json()),
 			Replay: replay()})
@@ -961,6 +990,8 @@ func run(r *ev.Run) {
 	reasons := map[string]int64{}
 	singleTable := map[string]map[string]bool{} // corruption@timing -> set of outcomes over worlds (singles only)
 	stateDiffs := map[string]int64{}
+	stateDiffReasons := map[string]int64{}
+	var stateDiffInvalid int64
 	for k, o := range outs {
 		for _, v := range o.viols {
 			r.Violate(v)
@@ -990,6 +1021,10 @@ func run(r *ev.Run) {
 			}
 			if len(o.stateDiff) > 0 {
 				stateDiffs[strings.Join(o.stateDiff, "+")]++
+				stateDiffReasons[strings.Join(o.stateDiff, "+")+" <- "+o.reason]++
+				if o.nFalse > 0 {
+					stateDiffInvalid++
+				}
 			}
 		}
 		if len(js[k].cors) <= 1 {
@@ -1040,6 +1075,8 @@ func run(r *ev.Run) {
 	r.Set("rejected_condition_unjudged", rejectedUnjudged)
 	r.Set("rejections_with_state_compared", stateChecked)
 	r.Set("rejections_that_changed_state", stateDiffs)
+	r.Set("rejections_that_changed_state_by_rejection_reason", stateDiffReasons)
+	r.Set("rejections_of_condition_violating_requests_that_changed_state", stateDiffInvalid)
 	r.Set("outcome_counts", reasons)
 	r.Set("single_corruption_outcomes_over_worlds", table)
 	r.Assume("the chain is a mock state tracker: it pairs consumer and consumer2 (same project) with this provider at the epochs 100,120,180,200,380 it already knows, never a third key, never epoch 160; unknown (future) epochs make the pairing query fail; virtual epoch 0")
